@@ -37,16 +37,16 @@ def c05(tier, seed):
 def c06(tier, seed):
     e3 = build_e3()
     r = Result("model_checking",
-               "breadth-first search over histories of {export(T), export_all(T), export_all_to(T, spelling)} for 9 universe types (4 sharing a file, dependencies between them) x 6 settings of TS_RS_EXPORT_DIR x 3 initial directory contents; every state is reached by replaying its history on the real code from a fresh directory; states deduplicated on (model set, registry snapshot, directory tree); invariant in every state: tree == reference model of the set exported so far on top of the initial contents",
+               "breadth-first search over histories of {export(T), export_all(T), export_all_to(T, spelling)} for 9 universe types (4 sharing a file, dependencies between them) x 7 settings of TS_RS_EXPORT_DIR (unset, relative, ./-prefixed, absolute, with `..`, trailing slash, through a symbolic link) x 3 initial directory contents; every state is reached by replaying its history on the real code from a fresh directory; states deduplicated on (model set, registry snapshot, directory tree); invariant in every state: tree == reference model of the set exported so far on top of the initial contents",
                "explicit-state BFS over export histories on the implementation")
     depth = 3 if tier == "quick" else 4
     args = ["bfs", "--depth", str(depth)]
     if tier == "thorough":
         args += ["--all-spellings"]
-    m = run_sliced(e3, args, slices=18)
+    m = run_sliced(e3, args, slices=21)
     r.absorb(m)
     r.extra["bounds"] = {"depth": depth, "spellings_of_export_dir": 7 if tier == "thorough" else 3,
-                         "env_settings": 6, "initial_contents": 3, "universe_types": 9}
+                         "env_settings": 7, "initial_contents": 3, "universe_types": 9}
     r.traces_validated = r.evaluations
     r.assumptions = TRUST_COMMON + [
         "two states with equal (model set, registry, tree) have equal futures: these are all the state the exporter reads besides cwd/env, which are fixed per configuration",
@@ -58,14 +58,14 @@ def c06(tier, seed):
 def c17(tier, seed):
     e3 = build_e3()
     r = Result("fault_enumeration",
-               "every history of length<=L over {export, export_all, export_all_to} x 9 universe types x {env unset, relative, absolute}; before every step every applicable obstacle (target path is a directory - one per not-yet-written member of the step's closure; each missing ancestor directory is a regular file; 4 non-exportable roots x {export, export_all}; export_to with more `..` than depth via export_all / export_all_to / export); the obstructed call must return Err (no panic), touch nothing but its own legitimate targets, leave no registry entry for an unwritten declaration; then the obstacle is removed, the step retried, the history completed and the final tree compared with the reference model. distinct = distinct (env, history, position, fault)",
+               "every history of length<=L over {export, export_all, export_all_to} x 9 universe types x {env unset, relative, absolute}; before every step every applicable obstacle (target path is a directory - one per not-yet-written member of the step's closure; a shared target file already written by an earlier step for another type is replaced by a directory and put back afterwards; each missing ancestor directory is a regular file; 4 non-exportable roots x {export, export_all}; export_to with more `..` than depth via export_all / export_all_to / export); the obstructed call must return Err (no panic), touch nothing but its own legitimate targets, leave no registry entry for an unwritten declaration; then the obstacle is removed, the step retried, the history completed and the final tree compared with the reference model. distinct = distinct (env, history, position, fault)",
                "exhaustive fault-position x fault-kind x history enumeration on the real exporter")
     length = 2 if tier == "quick" else 3
     m = run_sliced(e3, ["faults", "--len", str(length)])
     r.absorb(m)
     r.extra["bounds"] = {"history_length": length}
     r.assumptions = TRUST_COMMON + [
-        "obstacles are injected only where the obstructed path does not exist yet, so injecting destroys nothing",
+        "obstacles are injected where the obstructed path does not exist yet, or replace a file that is put back byte-identically on removal, so injecting destroys nothing",
     ]
     return r
 
@@ -76,7 +76,7 @@ def _only(merged, prop):
 
 
 GRAPH_RULE = ("dependency-graph corpus (50 root types: one per edge kind - field, inline, flatten, Option/Vec/array/tuple/map key/map value/Box, generic argument (plain, inlined, flattened, nested), parameter default, field/variant/container `as`, type override, struct tag, newtype/tuple structs, self-reference, cycle, 17 enums covering payload kinds x 4 representations x inline/skip/flatten) "
-              "x every assignment of run-time placements {default, d/, s.ts, d/x.ts, ../up/, d/e/} to the type keys (quick 864, thorough 9720 assignments) x base-directory spellings/entry points (quick 2, thorough 7) x pre-existing contents (quick 1, thorough 3) x import-esm {off,on}; one real export_all/export_all_to per case; distinct = distinct (root, locations of reachable types)")
+              "x every assignment of run-time placements {default, d/, s.ts, d/x.ts, ../up/, d/e/, d/x.js.ts, d/../s.ts (a second spelling of s.ts)} to the type keys (quick 2304, thorough 15360 assignments) x base-directory spellings/entry points (quick 3: default, ./x/../out, through a symbolic link; thorough 8) x pre-existing contents (quick 1, thorough 3) x import-esm {off,on}; one real export_all/export_all_to per case; distinct = distinct (root, locations of reachable types)")
 
 
 def _graph(tier, prop):
@@ -114,18 +114,26 @@ def c11(tier, seed):
 
 def c08(tier, seed):
     r = Result("exploration",
-               "every ordered pair (importing file, imported file) of relative paths built from <= D directory components over {a, b, a.b, x.ts, ts, .hid, ., ..} followed by a file name from {A.ts, b.c.ts, x.ts.ts, ts.ts, .h.ts, Ats} x base in {./bindings, /abs/dir, ./x/../y, /b} (thorough: + rel/dir, bindings/, /) x cwd depth {1,3} x import-esm {off,on}, through the real import_path(); oracle: independent lexical resolver (specifier syntax + resolution == dependency file); plus the specifiers of every real import statement written by the graph corpus. distinct = distinct relative path shapes",
+               "every ordered pair (importing file, imported file) of relative paths built from <= D directory components over {a, b, a.b, x.ts, ts, .hid, ., ..} followed by a file name from {A.ts, b.c.ts, x.ts.ts, ts.ts, .h.ts, Ats} x base in {./bindings, /abs/dir, ./x/../y, /b} (thorough: + rel/dir, bindings/, /; D = 3, thorough additionally D = 4 over the directory sub-alphabet {a, x.ts, ., ..}) x cwd depth {1,3} x import-esm {off,on}, through the real import_path(); oracle: independent lexical resolver (specifier syntax + resolution == dependency file); plus the specifiers of every real import statement written by the graph corpus. distinct = distinct relative path shapes",
                "exhaustive enumeration of path pairs through the real import_path against an independent resolver")
     depth = 3 if tier == "quick" else 4
     for feats in ((), ("import-esm",)):
         e3 = build_e3(feats)
-        m = run_sliced(e3, ["paths", "--depth", str(depth)] + (["--fewer-bases"] if tier == "quick" else []), slices=64)
+        pre = "esm." if feats else "cjs."
+        # full directory alphabet to 3 components; thorough adds all 7 bases and a 4-component pass over
+        # the sub-alphabet {a, x.ts, ., ..} (the full alphabet at 4 components is ~1.1e10 pairs per feature)
+        m = run_sliced(e3, ["paths", "--depth", "3"] + (["--fewer-bases"] if tier == "quick" else []), slices=64)
         m["distinct"] = {f"{feats}:{x}" for x in m["distinct"]}
-        r.absorb(m, ("esm." if feats else "cjs."))
+        r.absorb(m, pre)
+        if tier == "thorough":
+            m = run_sliced(e3, ["paths", "--depth", "4", "--small-dirs"], slices=64)
+            m["distinct"] = {f"{feats}:{x}" for x in m["distinct"]}
+            r.absorb(m, pre + "depth4-small.")
     for feats, m in _graph("quick", "C08"):
         m["distinct"] = set()
         r.absorb(m, ("graph-esm." if feats else "graph-cjs."))
-    r.extra["bounds"] = {"directory_components": depth}
+    r.extra["bounds"] = {"directory_components_full_alphabet": 3,
+                         "directory_components_sub_alphabet": depth if tier == "thorough" else 0}
     r.assumptions = ["tsmodel::paths is the TypeScript relative-module rule (./x -> x.ts; x.js -> x.ts under ESM)",
                      "the Windows separator branch cannot execute on this target",
                      "an imported file whose name does not end in .ts has no correct specifier and is excluded from the resolution clause (counted)"]
@@ -231,7 +239,14 @@ def c16(tier, seed):
     for cid, msg in excluded.items():
         r.violations.append({"class": {"check": "accepted-expansion-does-not-compile"}, "count": 1,
                              "examples": [{"case": cid, "rustc": msg}]})
-    r.rule += "; plus rustc's verdict: every case of the main, generic and present E2 corpora (types in the supported fragment, valid by construction, incl. lifetimes, const parameters with defaults, bounds) must compile, and so must every ts-spelled item with <= 1 attribute option (thorough: <= 2 valid options) that the in-process run saw the derive ACCEPT (`accepted` corpus, ~4k items; excluded: `bound`, which replaces the generated bounds, `concrete` naming no parameter, `optional` on a non-Option - the designed IsOption diagnostic)"
+    # the same under `#[ts(crate = "tsx")]` in crates that have no `ts_rs` at all
+    n, errors = driver.e2_compile_only("renamed", tier)
+    r.evaluations += n
+    r.counters["renamed_crate_corpus_cases_compiled_by_rustc"] = n - sum(1 for k in errors if not k.startswith("prelude#"))
+    if errors:
+        r.violations.append({"class": {"check": "expansion-does-not-compile-when-ts-rs-is-renamed"}, "count": len(errors),
+                             "examples": [{"case": "renamed:" + cid, "rustc": msg} for cid, msg in sorted(errors.items())[:5]]})
+    r.rule += "; plus rustc's verdict: every case of the main, generic and present E2 corpora (types in the supported fragment, valid by construction, incl. lifetimes, const parameters with defaults, bounds) must compile, and so must every ts-spelled item with <= 1 attribute option (thorough: <= 2 valid options) that the in-process run saw the derive ACCEPT (`accepted` corpus, ~4k items; excluded: `bound`, which replaces the generated bounds, `concrete` naming no parameter, `optional` on a non-Option - the designed IsOption diagnostic); and the complete generic and present corpora plus every third case of main once more in crates that know ts-rs only as `tsx`, every derive carrying #[ts(crate = \"tsx\")] (`renamed` corpus)"
     r.assumptions = ["proc_macro2/syn behave in the unit-test build (fallback mode) as inside rustc",
                      "the validity table in e1_macros.rs::expected_outcome transcribes the documented incompatibilities; items with an invalid-value option are only required not to panic"]
     return r
